@@ -378,12 +378,18 @@ func (l *BasicLifecycler) waitStableTokens(ctx context.Context, period time.Dura
 	level.Info(l.logger).Log("msg", "waiting stable tokens", "ring", l.ringName)
 	observeChan := time.After(period)
 
+	// Heartbeats sent while observing refresh the in-memory instance from the ring, so the
+	// tokens the ring is expected to still hold at the end of the period are kept aside.
+	expectedTokens := l.GetTokens()
+
 	for {
 		select {
 		case <-observeChan:
-			if !l.verifyTokens(ctx) {
+			verified, registeredTokens := l.verifyTokens(ctx, expectedTokens)
+			if !verified {
 				// The verification has failed
 				level.Info(l.logger).Log("msg", "tokens verification failed, keep observing", "ring", l.ringName)
+				expectedTokens = registeredTokens
 				observeChan = time.After(period)
 				break
 			}
@@ -403,14 +409,16 @@ func (l *BasicLifecycler) waitStableTokens(ctx context.Context, period time.Dura
 // Verifies that tokens that this instance has registered to the ring still belong to it.
 // Gossiping ring may change the ownership of tokens in case of conflicts.
 // If instance doesn't own its tokens anymore, this method generates new tokens and stores them to the ring.
-func (l *BasicLifecycler) verifyTokens(ctx context.Context) bool {
+// It returns whether the ring still holds expectedTokens and the tokens registered for this instance.
+func (l *BasicLifecycler) verifyTokens(ctx context.Context, expectedTokens Tokens) (bool, Tokens) {
 	result := false
+	registeredTokens := expectedTokens
 
 	err := l.updateInstance(ctx, func(r *Desc, i *InstanceDesc) bool {
 		// At this point, we should have the same tokens as we have registered before.
 		actualTokens, takenTokens := r.TokensFor(l.cfg.ID)
 
-		if actualTokens.Equals(l.GetTokens()) {
+		if actualTokens.Equals(expectedTokens) {
 			// Tokens have been verified. No need to change them.
 			result = true
 			return false
@@ -426,15 +434,17 @@ func (l *BasicLifecycler) verifyTokens(ctx context.Context) bool {
 		sort.Sort(actualTokens)
 
 		i.Tokens = actualTokens
+		registeredTokens = actualTokens
+		result = false
 		return true
 	})
 
 	if err != nil {
 		level.Error(l.logger).Log("msg", "failed to verify tokens", "ring", l.ringName, "err", err)
-		return false
+		return false, expectedTokens
 	}
 
-	return result
+	return result, registeredTokens
 }
 
 // unregister removes our entry from the store.
